@@ -64,7 +64,9 @@ class MetricActionContext(ActionContext):
         if metric.expression:
             try:
                 metric_value = float(self.trigger_context.evaluate_expression(metric.expression))
-            except Exception:
+            except BaseException:
+                # (the conversion runs application code, __float__, which can end in anything; the other metrics of the
+                # tracepoint are reported all the same)
                 deep.logging.exception("Cannot process metric expression %s", metric.expression)
 
         labels = {}
@@ -74,7 +76,7 @@ class MetricActionContext(ActionContext):
                 if label.expression:
                     try:
                         value = str(self.trigger_context.evaluate_expression(label.expression))
-                    except Exception:
+                    except BaseException:
                         deep.logging.exception("Cannot process metric label expression %s: %s", key, label.expression)
                         value = 'expression failed'
                 else:
